@@ -264,7 +264,7 @@ func b2i(b bool) int {
 }
 
 // render: the canonical accounting line compared with the Lean model (absent nodes are omitted).
-//   W=<wallet> T=<now> | A<k>:<owner>:<exp>:<wp>:<cp or ->:<mtc>:<mb>:<used>[b,size,price,cv,used,offer;...] ... | B<i>:cap:allocated:saved:dead:price S:offers:stake:rewards:dead ... | V<i> S:... | R<j>:bal | C<j>:balance
+//   W=<wallet> T=<now> | A<k>:<owner>:<exp>:<wp>:<cp or ->:<mtc>:<mb>:<size>:<data shards>[b,size,price,cv,used,offer;...] ... | B<i>:cap:allocated:saved:dead:price S:offers:stake:rewards:dead ... | V<i> S:... | R<j>:bal | C<j>:balance
 func (x *world) render(s *snap) string {
 	var sb strings.Builder
 	fmt.Fprintf(&sb, "W=%d T=%d", s.Wallet, int64(x.w.Now))
@@ -287,7 +287,7 @@ func (x *world) render(s *snap) string {
 				own = j
 			}
 		}
-		fmt.Fprintf(&sb, " A%d:%d:%d:%d:%s:%d:%d[", k, own, a.Expiration, a.WritePool, cp, a.MovedToChallenge, a.MovedBack)
+		fmt.Fprintf(&sb, " A%d:%d:%d:%d:%s:%d:%d:%d:%d[", k, own, a.Expiration, a.WritePool, cp, a.MovedToChallenge, a.MovedBack, a.Size, a.DataShards)
 		for i, d := range a.BAs {
 			if i > 0 {
 				sb.WriteString(";")
